@@ -503,10 +503,15 @@ pub fn c15(scratch: &Scratch, omitted: &dyn Fn(&[String], &str) -> bool, pattern
             for (j, m) in ["a", "b", "a.txt", "é"].iter().enumerate() {
                 t.insert(format!("{n}/{m}"), Node::file(b"x", T0 + 810 + j as i64));
             }
+            t.insert(format!("{n}/a.lnk"), Node::symlink("a", T0 + 822));
             t.insert(format!("{n}/ab"), Node::dir(T0 + 820));
             t.insert(format!("{n}/ab/b"), Node::file(b"y", T0 + 821));
         } else {
-            t.insert(n.to_string(), Node::file(b"z", T0 + 830 + i as i64));
+            if i == 1 {
+                t.insert(n.to_string(), Node::symlink("a", T0 + 830 + i as i64));
+            } else {
+                t.insert(n.to_string(), Node::file(b"z", T0 + 830 + i as i64));
+            }
         }
     }
     let full = new_archive(scratch, "full");
